@@ -162,6 +162,7 @@ def check(prop, tier, seed):
     n = common.tier_n(tier, 1500, 40000)
     items = common.choose_items(prop, tier, seed, n, mode_fraction=0.10, mode_cap=150 if tier == "quick" else 500)
     items += [{"b": k} for k in range(len(universe.battery()))]
+    items += [{"v": k} for k in universe.boundary_indices()]
     # integer-coded class: give EVERY (optimizer, encoding) pair that works today at least 6 distinct audited cases per run,
     # so that the wholesale rule can be decided for all of them (c06_pair_index.json lists universe indices per pair)
     try:
